@@ -9,17 +9,21 @@ Definition show_str (s : list N) : string := show_list show_N s.
 
 Inductive case :=
 | CQuote (s : list N)          (* lowQuote, lowDequote of it, ctcpQuote, ctcpDequote of it; and dequotes of s itself *)
-| CSend (nicklen : nat) (msgType user message : list N) (len : option Z) (wrapped : list (list (list N))).
+| CSend (nicklen : nat) (msgType user message : list N) (len : option Z) (wrapped : list (list (list N)))
+| CHist (calls : list case).   (* several calls on ONE client: the model has no state, each call stands alone *)
 
-Definition run_show (c : case) : string :=
+Definition show_send (nl : nat) (mt u m : list N) (len : option Z) (wr : list (list (list N))) : string :=
+  match send_message nl mt u m len wr with
+  | OValueError => "ValueError"
+  | OBadTable => "BADTABLE"
+  | OSent wires => String.concat "|" (map show_hex wires)
+  end.
+
+Fixpoint run_show (c : case) : string :=
   match c with
   | CQuote s =>
       show_str (lowQuote s) ++ " " ++ show_str (lowDequote (lowQuote s)) ++ " " ++ show_str (lowDequote s)
       ++ " " ++ show_str (ctcpQuote s) ++ " " ++ show_str (ctcpDequote (ctcpQuote s)) ++ " " ++ show_str (ctcpDequote s)
-  | CSend nl mt u m len wr =>
-      match send_message nl mt u m len wr with
-      | OValueError => "ValueError"
-      | OBadTable => "BADTABLE"
-      | OSent wires => String.concat "|" (map show_hex wires)
-      end
+  | CSend nl mt u m len wr => show_send nl mt u m len wr
+  | CHist calls => String.concat ";" (map run_show calls)
   end.
